@@ -21,6 +21,7 @@ import (
 	"sort"
 	"strings"
 	"sync"
+	"sync/atomic"
 	"testing"
 	"time"
 
@@ -334,13 +335,6 @@ func oneCall(sc *scenario, srv *tagsrv.Server, cl doer, host string, id string, 
 
 var hangAfter = 120 * time.Second
 
-// timedOnly turns Do into DoTimeout (the kicker must not block itself).
-type timedOnly struct{ doer }
-
-func (t timedOnly) Do(req *fasthttp.Request, resp *fasthttp.Response) error {
-	return t.doer.DoTimeout(req, resp, time.Second)
-}
-
 type result struct {
 	calls      []*call
 	snap       tagsrv.Snapshot
@@ -377,6 +371,7 @@ func runScenario(sc *scenario, r *mon.Run) *result {
 	res := &result{}
 	var mu sync.Mutex
 	var wg sync.WaitGroup
+	var completed atomic.Int64
 	for g := 0; g < sc.g; g++ {
 		wg.Add(1)
 		go func(g int) {
@@ -388,49 +383,41 @@ func runScenario(sc *scenario, r *mon.Run) *result {
 				mu.Lock()
 				res.calls = append(res.calls, c)
 				mu.Unlock()
+				completed.Add(1)
 			}
 		}(g)
 	}
 	done := make(chan struct{})
 	go func() { wg.Wait(); close(done) }()
-	if sc.kind == kindPipeline {
-		// The pipeline writer leaves a written request unflushed when the next queued
-		// work has already expired (it only arms the flush after a write); a plain Do
-		// then waits until some later request triggers the flush. That is outside this
-		// property (no wrong response), so the workload keeps a trickle of requests
-		// going instead of hanging: they are ordinary judged calls.
-		wg2 := sync.WaitGroup{}
-		wg2.Add(1)
-		go func() {
-			defer wg2.Done()
-			rnd := r.Rand(fmt.Sprintf("kick-%d", sc.idx), 0)
-			for k := 0; ; k++ {
-				select {
-				case <-done:
-					return
-				case <-time.After(30 * time.Millisecond):
-				}
-				kc := *sc
-				kc.shortPct = 0
-				c := oneCall(&kc, srv, timedOnly{cl}, hosts[0], fmt.Sprintf("s%d.kick.n%d", sc.idx, k), rnd)
-				mu.Lock()
-				res.calls = append(res.calls, c)
-				mu.Unlock()
-			}
-		}()
-		defer wg2.Wait()
-	}
-	select {
-	case <-done:
-	case <-time.After(hangAfter):
-		res.hung = true
-		if d := os.Getenv("C04_DEBUG_DIR"); d != "" {
-			os.WriteFile(fmt.Sprintf("%s/hang-%d.txt", d, sc.idx), []byte(mon.Stacks()), 0o644)
-		}
-		srv.ReleaseAll()
+	// Wait for the callers. The pipeline writer leaves a written request unflushed
+	// when the next queued work has already expired (it only arms the flush after a
+	// write): a plain Do (or a call with a long timeout) then waits until some later
+	// request triggers the flush. That is outside this property (nothing wrong is
+	// delivered), so when a PipelineClient scenario makes no progress the server
+	// closes its connections, as a server with an idle timeout would: the pending
+	// calls fail, the queued ones go out on a new connection.
+	start := time.Now()
+	last, lastChange := completed.Load(), time.Now()
+wait:
+	for {
 		select {
 		case <-done:
-		case <-time.After(30 * time.Second):
+			break wait
+		case <-time.After(20 * time.Millisecond):
+		}
+		if n := completed.Load(); n != last {
+			last, lastChange = n, time.Now()
+		} else if sc.kind == kindPipeline && time.Since(lastChange) > 300*time.Millisecond {
+			srv.CloseAll()
+			res.idleCloses++
+			lastChange = time.Now()
+		}
+		if time.Since(start) > hangAfter {
+			res.hung = true
+			if d := os.Getenv("C04_DEBUG_DIR"); d != "" {
+				os.WriteFile(fmt.Sprintf("%s/hang-%d.txt", d, sc.idx), []byte(mon.Stacks()), 0o644)
+			}
+			break wait
 		}
 	}
 	closeIdle()
@@ -528,8 +515,10 @@ func TestC04(t *testing.T) {
 		}
 		res := runScenario(sc, r)
 		if res.hung {
-			r.Inconclusive(fmt.Sprintf("scenario %d (%s %s): callers still blocked after 120 s\n%s", i, kindNames[sc.kind], sc.profile, mon.Short([]byte(mon.Stacks()), 6000)))
+			r.Inconclusive(fmt.Sprintf("scenario %d (%s %s): callers still blocked after %v; scenario not judged", i, kindNames[sc.kind], sc.profile, hangAfter))
+			return
 		}
+		r.Event("pipeline_idle_closes_by_server", res.idleCloses)
 		if !res.shutdownOK {
 			r.Inconclusive(fmt.Sprintf("scenario %d: tag server goroutines did not finish", i))
 		}
